@@ -48,6 +48,8 @@ type World struct {
 	OnPing func(connID int) error
 	// OnEvent, if set, receives (kind, connID, block) for kinds "connect_ok","connect_fail","do_call","do_ret","close"
 	OnEvent func(kind string, connID int, b *Block, seq int64)
+	// Ragged counts the INSERT blocks whose columns had different lengths (rejected like the native protocol does)
+	Ragged int64
 }
 
 func NewWorld() *World {
@@ -118,6 +120,7 @@ func (c *Client) Do(ctx context.Context, q ch.Query) error {
 	} else if !b.rectangular() {
 		// what ClickHouse does with a ragged block: the native protocol rejects it
 		err = fmt.Errorf("fakech: ragged block, rows per column %v", b.NRows)
+		atomic.AddInt64(&c.w.Ragged, 1)
 	} else if c.w.OnDo != nil {
 		err = c.w.OnDo(b)
 	}
